@@ -147,6 +147,26 @@ def run_stream(resources, steps, rerun=True, collect=False):
         return {'error': err_code(e), 'exc': '%s: %s' % (type(c).__name__, str(c)[:300]), 'exc_type': type(c).__name__}
 
 
+def child_python(code, ascii_locale=False, timeout=120):
+    """runs a script in a child interpreter (with /repo's dataflows first on its path), optionally under a locale whose
+    default text encoding is ASCII (LC_ALL=C with UTF-8 mode and locale coercion switched off: a legitimate environment);
+    returns (what the script printed after the marker RESULT as JSON, or None; the tail of its standard error)"""
+    import subprocess
+    env = dict(os.environ, PYTHONPATH=REPO, PYTHONHASHSEED='0')
+    if ascii_locale:
+        env.update(LC_ALL='C', LANG='C', PYTHONUTF8='0', PYTHONCOERCECLOCALE='0')
+        env.pop('PYTHONIOENCODING', None)
+    try:
+        p = subprocess.run([PY, '-c', 'import sys; sys.path.insert(0, %r)\n' % REPO + code], stdout=subprocess.PIPE, stderr=subprocess.PIPE, timeout=timeout, env=env)
+    except subprocess.TimeoutExpired:
+        return None, 'no result within %d seconds' % timeout
+    got = None
+    for line in p.stdout.decode('ascii', 'replace').splitlines():
+        if 'RESULT ' in line:
+            got = json.loads(line[line.index('RESULT ') + 7:])
+    return got, p.stderr.decode('ascii', 'replace')[-400:]
+
+
 def rotate_keys(row):
     """a row step that leaves every value under its name but moves the row's first key to the end: steps address values by
     field name, so nothing downstream may depend on the order of a row's keys (round 8)"""
